@@ -78,7 +78,9 @@ fn kd10_reset_equals_fresh() {
     a.max_lazy_match = kani::any();
     a.good_match = kani::any();
     a.nice_match = kani::any();
-    a.bit_writer.pending.pending = kani::any();
+    // a partially drained pending buffer: 3 bytes queued, 1 or 2 of them already handed to the caller (read cursor != 0)
+    a.bit_writer.pending.extend(&[1, 2, 3]);
+    a.bit_writer.pending.advance(if kani::any() { 1 } else { 2 });
     let mut sa = typed_stream(unsafe { &mut *(&mut a as *mut State) });
     let mut sb = typed_stream(unsafe { &mut *(&mut b as *mut State) });
     sa.total_in = kani::any();
@@ -98,6 +100,7 @@ fn kd10_reset_equals_fresh() {
     assert!(x.bit_writer.bit_buffer == y.bit_writer.bit_buffer && x.bit_writer.bits_valid == y.bit_writer.bits_valid && x.bit_writer.bits_used == y.bit_writer.bits_used, "bit writer");
     assert!(x.max_chain_length == y.max_chain_length && x.max_lazy_match == y.max_lazy_match && x.good_match == y.good_match && x.nice_match == y.nice_match, "tuning");
     assert!(x.bit_writer.pending.pending == y.bit_writer.pending.pending, "pending output discarded");
+    assert!(x.bit_writer.pending.remaining() == y.bit_writer.pending.remaining(), "the whole pending buffer is available again");
     assert!(x.block_open == y.block_open, "block_open survives reset");
     assert!(x.level == y.level && x.strategy == y.strategy && x.w_size == y.w_size && x.lit_bufsize == y.lit_bufsize);
     assert!(x.sym_buf.is_empty() && y.sym_buf.is_empty());
